@@ -855,25 +855,28 @@ class Exclude(Constraint):
             for excluded_level in excluded_level_tuple:
                 if isinstance(excluded_level, DerivedLevel):
                     result = self.extract_simplelevel(block, excluded_level)
+                    # Keep each pairing of a combination so far with a way to get the derived
+                    # level, unless the two disagree about some factor
                     newcombos = []
-                    valid = True
                     for r in result:
                         for c in combos:
-                            for f in c:
-                                if f in r:
-                                    if c[f] != r[f]:
-                                        valid = False
-                        if valid:
-                            newcombos.append({**r, **c})
+                            if all(c[f] == r[f] for f in c if f in r):
+                                newcombos.append({**r, **c})
                     combos = newcombos
                 else:
                     if not isinstance(excluded_level, SimpleLevel):
                         raise ValueError(f"Unexpected level type in exclusion: level {level.name} of type "
                                          f"{type(level).__name__}.")
+                    newcombos = []
                     for c in combos:
+                        if excluded_level.factor in c and c[excluded_level.factor] != excluded_level:
+                            # a derived argument already needs another level of this factor
+                            continue
                         if block.factor_in_crossing(excluded_level.factor) and block.require_complete_crossing:
                             block.errors.add("WARNING: Some combinations have been excluded, this crossing may not be complete!")
                         c[excluded_level.factor] = excluded_level
+                        newcombos.append(c)
+                    combos = newcombos
             excluded_levels.extend(combos)
         return excluded_levels
 
